@@ -43,7 +43,7 @@ class C:
 		return [self.n]
 
 '''
-SIGNATURE = 'n: int, x: float, b: bool, s: str, xs: list[int], ys: list[str], d: dict[str, int], t: tuple[int, str], c: C, e: E, xss: list[list[int]], dl: dict[str, list[float]], cs: list[C], xa: Ints, rows: Rows, da: DS, xo: list[int] | None, co: C | None, lo: list[C] | None'
+SIGNATURE = 'n: int, x: float, b: bool, s: str, xs: list[int], ys: list[str], d: dict[str, int], t: tuple[int, str], c: C, e: E, xss: list[list[int]], dl: dict[str, list[float]], cs: list[C], xa: Ints, rows: Rows, da: DS, xo: list[int] | None, co: C | None, lo: list[C] | None, xn: None | list[int], cn: None | C, ln: None | list[C]'
 
 
 def describe(v) -> str:
@@ -72,7 +72,7 @@ def runtime_types(texts: list[str]) -> list[str]:
 	scope: dict = {}
 	exec(PRELUDE, scope)
 	C, E = scope['C'], scope['E']
-	env = {'n': 3, 'x': 1.5, 'b': True, 's': 'a,b', 'xs': [1, 2], 'ys': ['a', 'b'], 'd': {'a': 1}, 't': (1, 'z'), 'c': C(2), 'e': E.A, 'xss': [[1], [2]], 'dl': {'a': [1.5]}, 'cs': [C(1)], 'xa': [1, 2], 'rows': [[1], [2]], 'da': {'a': 1}, 'xo': [3], 'co': C(1), 'lo': [C(1)]}
+	env = {'n': 3, 'x': 1.5, 'b': True, 's': 'a,b', 'xs': [1, 2], 'ys': ['a', 'b'], 'd': {'a': 1}, 't': (1, 'z'), 'c': C(2), 'e': E.A, 'xss': [[1], [2]], 'dl': {'a': [1.5]}, 'cs': [C(1)], 'xa': [1, 2], 'rows': [[1], [2]], 'da': {'a': 1}, 'xo': [3], 'co': C(1), 'lo': [C(1)], 'xn': [4], 'cn': C(2), 'ln': [C(2)]}
 	out = []
 	for text in texts:
 		try:
